@@ -268,8 +268,14 @@ impl OpenOptions {
                 })
                 .unwrap()
                 .map_err(|e| wrap(e, EK::OpenFile, path))?;
+                // O_APPEND: writing starts at the current end of the file
+                let pos = if self.append {
+                    disk::with(|d| d.len_of(&norm)).flatten().unwrap_or(0)
+                } else {
+                    0
+                };
                 Ok(File {
-                    inner: Inner::SimWrite { norm, pos: 0 },
+                    inner: Inner::SimWrite { norm, pos },
                     path: path.to_path_buf(),
                     stat_len: 0,
                     eof_reads: 0,
